@@ -12,6 +12,7 @@ import (
 	"math/big"
 	"net/http"
 	"net/http/httptest"
+	"net/url"
 	"regexp"
 	"sort"
 	"strings"
@@ -88,6 +89,10 @@ type PAlert struct {
 	// index+1 into stamps: the field is sent as that literal text instead of Starts / Ends (0 = not used)
 	StartsStamp int `json:"starts_stamp,omitempty"`
 	EndsStamp   int `json:"ends_stamp,omitempty"`
+	// Extra: a NEW label set beyond what the per-alertname limit admits, at the head of a batch. It is sent only when,
+	// at that moment, the stored live alerts of its alertname fill the limit (then the refusal is certain); a refused
+	// alert is, for the contract, as if it had not been posted: it is left out of the batch the model sees.
+	Extra bool `json:"extra,omitempty"`
 }
 
 func stampT(i int) time.Time {
@@ -142,6 +147,7 @@ type Op struct {
 	Dt     int64    `json:"dt"`   // virtual ns slept before the op
 	Batch  []PAlert `json:"batch,omitempty"`
 	Direct []DAlert `json:"direct,omitempty"`
+	RecvQ  []int    `json:"receiver_queries,omitempty"` // after the op: GET /alerts and /alerts/groups with ?receiver=recvQueries[i]
 	// observed (informational in replay files)
 	Now  int64 `json:"now,omitempty"`
 	Code int   `json:"code,omitempty"`
@@ -155,8 +161,10 @@ type Case struct {
 	// --alerts.per-alertname-limit (0 = off). The generator keeps the number of distinct label sets per alertname within
 	// the limit, so on a correct tree the limit never refuses anything (re-sends of admitted alerts are always accepted)
 	// and the model, which has no limit, must still agree.
-	Limit int  `json:"per_alertname_limit,omitempty"`
-	Ops   []Op `json:"ops"`
+	Limit          int  `json:"per_alertname_limit,omitempty"`
+	NamesInMetrics bool `json:"alert_names_in_metrics,omitempty"` // --enable-feature=alert-names-in-metrics
+	Routing        bool `json:"multi_receiver,omitempty"`         // routing tree with four receivers instead of one
+	Ops            []Op `json:"ops"`
 }
 
 const epoch = int64(946684800_000_000_000) // synctest bubbles start at 2000-01-01T00:00:00Z
@@ -427,12 +435,19 @@ var variants = map[int][]int{0: {6, 7, 8, 9}, 1: {12}, 2: {11}}
 // limited: label sets for a case with the per-alertname limit on: at most Limit distinct (cleaned, valid) label sets
 // per alertname over the whole case; decorations only of kinds that never make a new stored label set (empty-valued
 // labels are dropped, the empty name is invalid in every mode).
+func family(i int) KV {
+	if i == 2 {
+		return KV{3, 0}
+	}
+	return KV{0, i}
+}
+
 func (g *gen) limited() []KV {
 	r := g.r
 	inst := []int{2, 1, 4}[r.Intn(g.c.Limit)] // instance = web | B | 日本
-	ls := []KV{{0, r.Intn(2)}, {2, inst}}     // alertname = A | B
+	ls := []KV{family(r.Intn(3)), {2, inst}}  // alertname = A | B | none (sev=A instead: the bucket of the empty name)
 	if r.Chance(1, 4) {
-		ls = append(ls, KV{vh.Pick(r, []int{1, 3}), vEmpty})
+		ls = append(ls, KV{1, vEmpty})
 	}
 	if r.Chance(1, 10) {
 		ls = append(ls, KV{6, 0})
@@ -547,10 +562,23 @@ func genCase(r *vh.Rand, maxOps int) Case {
 	}
 	if r.Chance(1, 5) {
 		c.Limit = r.Range(1, 3)
+		c.NamesInMetrics = r.Bool()
 	}
+	c.Routing = c.Limit == 0 && r.Chance(1, 3)
 	g := &gen{r: r, c: &c, now: epoch, instants: []int64{epoch}}
 	direct := c.Transport == "direct"
 	n := r.Range(3, maxOps)
+	if c.Limit > 0 && r.Chance(2, 3) {
+		// fill the limit first: every admitted label set of every family, firing for two hours
+		op := Op{Kind: "post"}
+		for f := 0; f < 3; f++ {
+			for i := 0; i < c.Limit; i++ {
+				op.Batch = append(op.Batch, PAlert{Labels: []KV{family(f), {2, []int{2, 1, 4}[i]}}, Ends: epoch + int64(2*time.Hour)})
+			}
+		}
+		c.Ops = append(c.Ops, op)
+		g.note(epoch + int64(2*time.Hour))
+	}
 	for i := 0; i < n; i++ {
 		var dt int64
 		switch r.Intn(10) {
@@ -586,6 +614,14 @@ func genCase(r *vh.Rand, maxOps int) Case {
 				}
 				op.Batch = append(op.Batch, g.palert(direct))
 			}
+			if c.Limit > 0 && r.Chance(1, 2) {
+				// over-limit NEW alerts at the head of the batch, before the updates of admitted ones
+				var extras []PAlert
+				for j := r.Range(1, 2); j > 0; j-- {
+					extras = append(extras, PAlert{Labels: []KV{family(r.Intn(3)), {2, 0}}, Extra: true})
+				}
+				op.Batch = append(extras, op.Batch...)
+			}
 			g.note(g.now, g.now+c.RT)
 		case k < 8:
 			op.Kind = "put"
@@ -610,9 +646,64 @@ func genCase(r *vh.Rand, maxOps int) Case {
 		default:
 			op.Kind = "sleep"
 		}
+		if r.Chance(1, 3) {
+			for j := r.Range(1, 2); j > 0; j-- {
+				op.RecvQ = append(op.RecvQ, r.Intn(len(recvQueries)))
+			}
+		}
 		c.Ops = append(c.Ops, op)
 	}
 	return c
+}
+
+// ---------- receivers (reference: written here, independent of dispatch.Route) ----------
+
+const cfgMultiYAML = `
+route:
+  receiver: team-a
+  routes:
+  - matchers: [ alertname="B" ]
+    receiver: legacy-team-b
+  - matchers: [ job="web" ]
+    receiver: team-a-escalation
+    continue: true
+  - matchers: [ job="web" ]
+    receiver: team-b
+receivers:
+- name: team-a
+- name: team-b
+- name: team-a-escalation
+- name: legacy-team-b
+`
+
+var multiReceivers = []string{"team-a", "legacy-team-b", "team-a-escalation", "team-b"}
+
+// refReceivers: the receivers the configured tree selects for a label set (depth-first, first match unless continue)
+func refReceivers(c *Case, ls map[string]string) []string {
+	if !c.Routing {
+		return []string{"default"}
+	}
+	if ls["alertname"] == "B" {
+		return []string{"legacy-team-b"}
+	}
+	if ls["job"] == "web" {
+		return []string{"team-a-escalation", "team-b"}
+	}
+	return []string{"team-a"}
+}
+
+// values of the ?receiver= parameter: plain names, regexes, un-parenthesised alternations whose alternatives are a
+// prefix / suffix of other receiver names, a partial name, an invalid expression
+var recvQueries = []string{"team-a", "team-a|team-b", "team-b|team-a", "(team-a|team-b)", "team-.*", "legacy-.*|team-a", "team", ".*",
+	"team-a-escalation", "default", "def|xyz", "default|x", "["}
+
+// refRecvMatch: the documented meaning of ?receiver=: the expression must match a WHOLE receiver name
+func refRecvMatch(q string) (func(string) bool, bool) {
+	re, err := regexp.Compile("^(?:" + q + ")$")
+	if err != nil {
+		return nil, false
+	}
+	return re.MatchString, true
 }
 
 // ---------- execution against the real handlers ----------
@@ -620,6 +711,8 @@ func genCase(r *vh.Rand, maxOps int) Case {
 type sys struct {
 	api    *apiv2.API
 	alerts *mem.Alerts
+	reg    *prometheus.Registry       // the provider's metrics
+	rf     func(*dispatch.Route) bool // the route filter the last GET /alerts/groups handed to the dispatcher
 	rec    *gcRec
 	direct bool
 }
@@ -672,19 +765,62 @@ func (s *sys) post(t *testing.T, batch []PAlert) int {
 	return w.Code
 }
 
-func (s *sys) get(t *testing.T) ([]oalert, int, []string) {
+func (s *sys) get(t *testing.T) ([]oalert, int, []string) { return s.getR(t, nil) }
+
+// limited: the provider's alertmanager_alerts_limited_total, summed over its label values
+func (s *sys) limited(t *testing.T) float64 {
+	mfs, err := s.reg.Gather()
+	if err != nil {
+		t.Fatal(err)
+	}
+	sum := 0.0
+	for _, mf := range mfs {
+		if mf.GetName() == "alertmanager_alerts_limited_total" {
+			for _, m := range mf.GetMetric() {
+				sum += m.GetCounter().GetValue()
+			}
+		}
+	}
+	return sum
+}
+
+// groupsReceivers: GET /api/v2/alerts/groups?receiver=q; returns the status and the receivers of the configured routes
+// that the handler's route filter lets through (the dispatcher side is a stub that records the filter)
+func (s *sys) groupsReceivers(q string, routes *dispatch.Route) (int, map[string]bool) {
+	s.rf = nil
+	req := httptest.NewRequest("GET", "/api/v2/alerts/groups?receiver="+url.QueryEscape(q), nil)
+	w := httptest.NewRecorder()
+	s.api.Handler.ServeHTTP(w, req)
+	out := map[string]bool{}
+	if s.rf != nil {
+		routes.Walk(func(r *dispatch.Route) {
+			if s.rf(r) {
+				out[r.RouteOpts.Receiver] = true
+			}
+		})
+	}
+	return w.Code, out
+}
+
+func (s *sys) getR(t *testing.T, recv *string) ([]oalert, int, []string) {
 	var payload open_api_models.GettableAlerts
 	code := 0
+	target := "/api/v2/alerts"
+	if recv != nil {
+		target += "?receiver=" + url.QueryEscape(*recv)
+	}
 	if s.direct {
-		req := httptest.NewRequest("GET", "/api/v2/alerts", nil)
-		resp := s.api.VerifGetAlerts(alert_ops.GetAlertsParams{HTTPRequest: req, Active: boolp(true), Inhibited: boolp(true), Silenced: boolp(true), Unprocessed: boolp(true)})
+		req := httptest.NewRequest("GET", target, nil)
+		resp := s.api.VerifGetAlerts(alert_ops.GetAlertsParams{HTTPRequest: req, Receiver: recv, Active: boolp(true), Inhibited: boolp(true), Silenced: boolp(true), Unprocessed: boolp(true)})
 		ok, isOK := resp.(*alert_ops.GetAlertsOK)
 		if !isOK {
-			return nil, 500, nil
+			w := httptest.NewRecorder()
+			resp.WriteResponse(w, runtime.JSONProducer())
+			return nil, w.Code, nil
 		}
 		payload, code = ok.Payload, 200
 	} else {
-		req := httptest.NewRequest("GET", "/api/v2/alerts", nil)
+		req := httptest.NewRequest("GET", target, nil)
 		w := httptest.NewRecorder()
 		s.api.Handler.ServeHTTP(w, req)
 		code = w.Code
@@ -739,13 +875,21 @@ receivers:
 type tagset map[string]int
 
 // runCase executes one case; returns the Coq history items, oracle violations and branch tags.
-func runCase(t *testing.T, c *Case) (hist []string, viol []vh.Violation, tags tagset, nameTbl, valueTbl map[string]bool) {
+func runCase(t *testing.T, c *Case) (hist []string, viol []vh.Violation, tags tagset, nameTbl, valueTbl map[string]bool, routeTbl map[string]string) {
 	tags = tagset{}
+	routeTbl = map[string]string{}
 	nameTbl, valueTbl = map[string]bool{}, map[string]bool{}
 	violate := func(k, what string) { viol = append(viol, vh.Violation{Key: k, What: what, Case: c}) }
 	synctest.Test(t, func(t *testing.T) {
 		logger := promslog.NewNopLogger()
-		flags, err := featurecontrol.NewFlags(logger, c.Mode)
+		features := c.Mode
+		if c.NamesInMetrics {
+			if features != "" {
+				features += ","
+			}
+			features += featurecontrol.FeatureAlertNamesInMetrics
+		}
+		flags, err := featurecontrol.NewFlags(logger, features)
 		if err != nil {
 			t.Fatal(err)
 		}
@@ -753,7 +897,9 @@ func runCase(t *testing.T, c *Case) (hist []string, viol []vh.Violation, tags ta
 		ctx, cancel := context.WithCancel(context.Background())
 		defer cancel()
 		rec := &gcRec{}
-		alerts, err := mem.NewAlerts(ctx, time.Duration(c.GC), c.Limit, rec, logger, eventrecorder.NopRecorder(), prometheus.NewRegistry(), flags)
+		reg := prometheus.NewRegistry()
+		var s *sys
+		alerts, err := mem.NewAlerts(ctx, time.Duration(c.GC), c.Limit, rec, logger, eventrecorder.NopRecorder(), reg, flags)
 		if err != nil {
 			t.Fatal(err)
 		}
@@ -765,7 +911,8 @@ func runCase(t *testing.T, c *Case) (hist []string, viol []vh.Violation, tags ta
 		silencer := silence.NewSilencer(sils, logger, eventrecorder.NopRecorder())
 		inhibitor := inhibit.NewInhibitor(alerts, nil, logger, eventrecorder.NopRecorder())
 		api, err := apiv2.NewAPI(alerts,
-			func(context.Context, func(*dispatch.Route) bool, func(*alert.Alert, time.Time) bool) (dispatch.AlertGroups, map[model.Fingerprint][]string, error) {
+			func(_ context.Context, rf func(*dispatch.Route) bool, _ func(*alert.Alert, time.Time) bool) (dispatch.AlertGroups, map[model.Fingerprint][]string, error) {
+				s.rf = rf
 				return nil, nil, nil
 			},
 			func(string, string) ([]string, bool) { return nil, false },
@@ -773,7 +920,11 @@ func runCase(t *testing.T, c *Case) (hist []string, viol []vh.Violation, tags ta
 		if err != nil {
 			t.Fatal(err)
 		}
-		cfg, err := config.Load(cfgYAML)
+		yaml := cfgYAML
+		if c.Routing {
+			yaml = cfgMultiYAML
+		}
+		cfg, err := config.Load(yaml)
 		if err != nil {
 			t.Fatal(err)
 		}
@@ -782,7 +933,8 @@ func runCase(t *testing.T, c *Case) (hist []string, viol []vh.Violation, tags ta
 			inhibitor.Mutes(ctx, ls)
 			silencer.Mutes(ctx, ls)
 		})
-		s := &sys{api: api, alerts: alerts, rec: rec, direct: c.Transport == "direct"}
+		s = &sys{api: api, alerts: alerts, reg: reg, rec: rec, direct: c.Transport == "direct"}
+		routes := dispatch.NewRoute(cfg.Route, nil)
 		sub := alerts.Subscribe("verif")
 		defer sub.Close()
 		drain := func() []oalert {
@@ -801,6 +953,62 @@ func runCase(t *testing.T, c *Case) (hist []string, viol []vh.Violation, tags ta
 		}
 
 		prev := map[string]oalert{} // dump after the previous op
+		// GET with ?receiver=: exactly the listed alerts one of whose receivers the expression matches as a whole
+		recvOracle := func(nowNs int64, q string) {
+			now := gtime(nowNs)
+			match, valid := refRecvMatch(q)
+			got, code, _ := s.getR(t, &q)
+			gcode, groutes := s.groupsReceivers(q, routes)
+			if !valid {
+				tags["receiver-query-invalid-regex"]++
+				if code != 400 || gcode != 400 {
+					violate("get-receiver-filter-wrong", fmt.Sprintf("?receiver=%s does not compile but GET /alerts answered %d, /alerts/groups %d", q, code, gcode))
+				}
+				return
+			}
+			if code != 200 || gcode != 200 {
+				violate("get-receiver-filter-wrong", fmt.Sprintf("?receiver=%s: GET /alerts answered %d, /alerts/groups %d", q, code, gcode))
+				return
+			}
+			want := map[string]bool{}
+			for k, st := range prev {
+				if !st.ends.IsZero() && st.ends.Before(now) {
+					continue
+				}
+				for _, rc := range refReceivers(c, st.labels) {
+					if match(rc) {
+						want[k] = true
+					}
+				}
+			}
+			have := map[string]bool{}
+			for _, a := range got {
+				have[key(a.labels)] = true
+			}
+			for k := range want {
+				if !have[k] {
+					violate("get-receiver-filter-wrong", fmt.Sprintf("GET /alerts?receiver=%s omits %s (receivers %v)", q, k, refReceivers(c, prev[k].labels)))
+				}
+			}
+			for _, a := range got {
+				if !want[key(a.labels)] {
+					violate("get-receiver-filter-wrong", fmt.Sprintf("GET /alerts?receiver=%s lists %s whose receivers are %v", q, key(a.labels), a.receivers))
+				}
+			}
+			if len(want) > 0 && len(want) < len(prev) {
+				tags["receiver-query-selects-a-proper-subset"]++
+			}
+			all := []string{"default"}
+			if c.Routing {
+				all = multiReceivers
+			}
+			for _, rc := range all {
+				if match(rc) != groutes[rc] {
+					violate("groups-receiver-filter-wrong", fmt.Sprintf("GET /alerts/groups?receiver=%s: route of receiver %s passes the filter = %v, want %v", q, rc, groutes[rc], match(rc)))
+				}
+			}
+			tags["receiver-query"]++
+		}
 		add := func(nowNs int64, opTerm, outTerm string) {
 			hist = append(hist, fmt.Sprintf("(%s, %s, %s)", coqT(gtime(nowNs)), opTerm, outTerm))
 		}
@@ -841,9 +1049,10 @@ func runCase(t *testing.T, c *Case) (hist []string, viol []vh.Violation, tags ta
 				if !a.starts.Equal(st.starts) || !a.ends.Equal(st.ends) || !a.updated.Equal(st.updated) || a.gen != st.gen || key(a.annots) != key(st.annots) {
 					violate("get-times-differ-from-store", fmt.Sprintf("after %s: GET shows %s with other times/annotations than stored", after, k))
 				}
-				if len(a.receivers) != 1 || a.receivers[0] != "default" {
-					violate("get-receivers-wrong", fmt.Sprintf("receivers %v", a.receivers))
+				if want := refReceivers(c, a.labels); strings.Join(a.receivers, ",") != strings.Join(want, ",") {
+					violate("get-receivers-wrong", fmt.Sprintf("receivers of %s: %v, want %v", k, a.receivers, want))
 				}
+				routeTbl[k] = vh.Pair(coqLS(a.labels), vh.ListOf(refReceivers(c, a.labels), vh.Str))
 				if a.state != "active" || a.nonEmptyMuteList {
 					violate("get-status-wrong", fmt.Sprintf("state %s", a.state))
 				}
@@ -956,13 +1165,46 @@ func runCase(t *testing.T, c *Case) (hist []string, viol []vh.Violation, tags ta
 				for _, p := range op.Batch {
 					noteStrings(nameTbl, valueTbl, p)
 				}
-				code := s.post(t, op.Batch)
+				// over-limit NEW alerts at the head of the batch: sent only when the refusal is certain (the stored live
+				// alerts of that alertname fill the limit), and then not part of the batch the model / the clauses see
+				var send, batch, extras []PAlert
+				for _, p := range op.Batch {
+					if !p.Extra {
+						send, batch = append(send, p), append(batch, p)
+						continue
+					}
+					name, live := kvMap(p.Labels, false)["alertname"], 0
+					for _, st := range prev {
+						if st.labels["alertname"] == name && st.ends.After(gtime(now)) {
+							live++
+						}
+					}
+					if _, stored := prev[cleanedKey(p)]; !stored && live == c.Limit && len(batch) == 0 && refValid(c.Mode, p, gtime(now), c.RT) {
+						send, extras = append(send, p), append(extras, p)
+					}
+				}
+				limitedBefore := s.limited(t)
+				code := s.post(t, send)
 				op.Code = code
 				sent := drain()
-				add(now, vh.App("OPost", vh.ListOf(op.Batch, PAlert.coqP)), vh.App("RPost", vh.Z(int64(code)), vh.ListOf(sent, oalert.coqAlert)))
+				add(now, vh.App("OPost", vh.ListOf(batch, PAlert.coqP)), vh.App("RPost", vh.Z(int64(code)), vh.ListOf(sent, oalert.coqAlert)))
 				cur := observe(now, "post")
 				vanish(cur, now, false, nil)
-				postOracle(c, op, gtime(now), code, prev, cur, sent, violate, tags)
+				postOracle(c, batch, gtime(now), code, prev, cur, sent, violate, tags)
+				if len(extras) > 0 {
+					tags["post-over-limit-new-alert-first"]++
+					if len(batch) > 0 {
+						tags["post-over-limit-new-alert-before-updates"]++
+					}
+					for _, p := range extras {
+						if _, ok := cur[cleanedKey(p)]; ok {
+							violate("over-limit-new-alert-admitted", "a new label set beyond the per-alertname limit was stored: "+cleanedKey(p))
+						}
+					}
+				}
+				if d := s.limited(t) - limitedBefore; d != float64(len(extras)) {
+					violate("limit-refusal-not-counted", fmt.Sprintf("%d alerts refused by the per-alertname limit (alert-names-in-metrics=%v) but alertmanager_alerts_limited_total grew by %v", len(extras), c.NamesInMetrics, d))
+				}
 				prev = cur
 			case "put":
 				var as []*alert.Alert
@@ -998,9 +1240,12 @@ func runCase(t *testing.T, c *Case) (hist []string, viol []vh.Violation, tags ta
 				vanish(cur, now, false, nil)
 				prev = cur
 			}
+			for _, qi := range op.RecvQ {
+				recvOracle(now, recvQueries[qi])
+			}
 		}
 	})
-	return hist, viol, tags, nameTbl, valueTbl
+	return hist, viol, tags, nameTbl, valueTbl, routeTbl
 }
 
 func sameO(a, b oalert) bool {
@@ -1020,11 +1265,11 @@ func noteStrings(nameTbl, valueTbl map[string]bool, p PAlert) {
 // postOracle: the contract clauses of C13 for one POST, stated on observations only (stored alerts before/after,
 // response code, alerts handed to subscribers). Clauses about merged times are applied to label sets that occur once
 // among the valid alerts of the batch (for repeated ones the clauses compose and are covered by the model comparison).
-func postOracle(c *Case, op *Op, now time.Time, code int, prev, cur map[string]oalert, sent []oalert, violate func(k, what string), tags tagset) {
+func postOracle(c *Case, batch []PAlert, now time.Time, code int, prev, cur map[string]oalert, sent []oalert, violate func(k, what string), tags tagset) {
 	rt := time.Duration(c.RT)
 	nValid := 0
 	perKey := map[string]int{}
-	for _, p := range op.Batch {
+	for _, p := range batch {
 		if refValid(c.Mode, p, now, c.RT) {
 			nValid++
 			perKey[cleanedKey(p)]++
@@ -1033,7 +1278,7 @@ func postOracle(c *Case, op *Op, now time.Time, code int, prev, cur map[string]o
 		}
 	}
 	switch {
-	case nValid == len(op.Batch):
+	case nValid == len(batch):
 		tags["post-all-valid"]++
 	case nValid == 0:
 		tags["post-all-invalid"]++
@@ -1044,14 +1289,25 @@ func postOracle(c *Case, op *Op, now time.Time, code int, prev, cur map[string]o
 		tags["post-with-per-alertname-limit"]++
 	}
 	want := 200
-	if nValid != len(op.Batch) {
+	if nValid != len(batch) {
 		want = 400
 	}
 	if code != want {
-		violate("response-class-wrong", fmt.Sprintf("POST with %d/%d valid alerts answered %d, want %d", nValid, len(op.Batch), code, want))
+		violate("response-class-wrong", fmt.Sprintf("POST with %d/%d valid alerts answered %d, want %d", nValid, len(batch), code, want))
 	}
 	if len(sent) != nValid {
-		violate("valid-alert-not-stored", fmt.Sprintf("%d valid alerts in the batch but %d were put", nValid, len(sent)))
+		// what Put stores is what the subscribers (the dispatcher) are handed: one update per valid alert, in order
+		stored := 0
+		for _, p := range batch {
+			if a, ok := cur[cleanedKey(p)]; ok && refValid(c.Mode, p, now, c.RT) && a.updated.Equal(now) {
+				stored++
+			}
+		}
+		if stored == nValid && len(sent) < nValid {
+			violate("stored-update-not-handed-to-subscribers", fmt.Sprintf("%d valid alerts stored by the POST but only %d updates reached the subscriber", nValid, len(sent)))
+		} else {
+			violate("valid-alert-not-stored", fmt.Sprintf("%d valid alerts in the batch but %d were put", nValid, len(sent)))
+		}
 	}
 	// label sets not named by a valid alert are untouched
 	for k, p := range prev {
@@ -1066,7 +1322,7 @@ func postOracle(c *Case, op *Op, now time.Time, code int, prev, cur map[string]o
 			violate("invalid-alert-stored", "POST stored a label set that no valid alert of the batch has: "+k)
 		}
 	}
-	for _, p := range op.Batch {
+	for _, p := range batch {
 		if !refValid(c.Mode, p, now, c.RT) {
 			continue
 		}
@@ -1207,7 +1463,7 @@ func TestCheck(t *testing.T) {
 	}
 	for i := range cases {
 		c := &cases[i]
-		hist, viol, tags, nameTbl, valueTbl := runCase(t, c)
+		hist, viol, tags, nameTbl, valueTbl, routeTbl := runCase(t, c)
 		tbl := func(m map[string]bool) string {
 			ks := vh.SortedKeys(m)
 			parts := make([]string, len(ks))
@@ -1216,7 +1472,13 @@ func TestCheck(t *testing.T) {
 			}
 			return vh.List(parts)
 		}
-		term := fmt.Sprintf("mkCase %s %s %s [\n  %s]", vh.Z(c.RT), tbl(nameTbl), tbl(valueTbl), strings.Join(hist, ";\n  "))
+		var rts []string
+		if c.Routing {
+			for _, k := range vh.SortedKeys(routeTbl) {
+				rts = append(rts, routeTbl[k])
+			}
+		}
+		term := fmt.Sprintf("mkCase %s %s %s %s [\n  %s]", vh.Z(c.RT), tbl(nameTbl), tbl(valueTbl), vh.List(rts), strings.Join(hist, ";\n  "))
 		nontrivial := tags["post-intersects-stored"]+tags["post-after-stored-interval"]+tags["post-before-stored-interval"] > 0
 		run.Add(term, c, nontrivial)
 		for _, v := range viol {
@@ -1227,6 +1489,7 @@ func TestCheck(t *testing.T) {
 		}
 		run.Count("transport", c.Transport)
 		run.Count("per_alertname_limit", fmt.Sprintf("%d", c.Limit))
+		run.Count("multi_receiver", fmt.Sprintf("%v", c.Routing))
 		run.Count("mode", "mode="+c.Mode)
 		run.Count("history_len", fmt.Sprintf("%02d-%02d", len(c.Ops)/5*5, len(c.Ops)/5*5+4))
 	}
